@@ -41,6 +41,7 @@ func runHistory(w *bufio.Writer, id int, profile string, seed uint64, nOps int, 
 		}
 		nx, nt := len(e.xfers), len(e.trace)
 		e.order = e.order[:0]
+		e.hookViol = e.hookViol[:0]
 		e.ctx = e.ctx.WithEventManager(sdk.NewEventManager())
 		pre, res, post := e.Exec(o)
 		evh := sha256.New()
@@ -69,6 +70,9 @@ func runHistory(w *bufio.Writer, id int, profile string, seed uint64, nOps int, 
 		}
 		if len(e.order) > 0 && (res.Class == "blockok" || res.Class == "ok") {
 			fmt.Fprintf(w, "ORDER %s\n", strings.Join(e.order, " "))
+		}
+		for _, v := range e.hookViol {
+			fmt.Fprintf(w, "HOOKCHECK %s\n", v)
 		}
 		fmt.Fprintf(w, "EVH n=%d h=%x\n", nev, evh.Sum(nil)[:8])
 		if res.Class != "blockerr" && res.Class != "panic" && res.Class != "generr" && o.Kind != "QUERY" {
